@@ -125,7 +125,20 @@ func (c *ChoiceProvider) Permitted(nc *v1.NodeClaim) []Launch {
 		}
 		return out[i].String() < out[j].String()
 	})
-	return out
+	// The cheapest launch stays first (the default choice). After it come the cheapest launch of every OTHER instance
+	// type, then everything else by price: drivers that enumerate "up to k launches per claim" thereby cover every
+	// permitted instance type before they cover further zones / capacity types of the same type.
+	var reps, rest []Launch
+	seen := map[string]bool{}
+	for _, l := range out {
+		if !seen[l.Type.Name] {
+			seen[l.Type.Name] = true
+			reps = append(reps, l)
+		} else {
+			rest = append(rest, l)
+		}
+	}
+	return append(reps, rest...)
 }
 
 func fitsRL(req, alloc corev1.ResourceList) bool {
